@@ -133,6 +133,8 @@ def gen(rng, tier, run):
                                 shp = [shapes[src][0]]
                     else:
                         shp = [2] + shp
+                    if broadcast_of(shapes[src], shp) == list(shapes[src]):
+                        shp = [2] + list(shapes[src])      # make sure the array really enlarges the dataset
                 size = 1
                 for n in shp:
                     size *= n
@@ -176,6 +178,16 @@ def gen(rng, tier, run):
     if not pokes_legal(case):
         case['cmds'] = [c for c in cmds if c['k'] != 'poke']
     return case
+
+
+def broadcast_of(a, b):
+    """numpy's broadcast shape of two shapes (None when they cannot be broadcast)"""
+    out = []
+    for x, y in zip(([1] * len(b) + list(a))[-max(len(a), len(b)):], ([1] * len(a) + list(b))[-max(len(a), len(b)):]):
+        if x != y and 1 not in (x, y):
+            return None
+        out.append(max(x, y))
+    return out
 
 
 def pokes_legal(case):
